@@ -84,8 +84,30 @@ func TestWorker(t *testing.T) {
 		count, _ := strconv.Atoi(env("VERIF_SEED_COUNT", "1"))
 		keepPlan := env("VERIF_KEEP_PLANS", "") != ""
 		warmUp(t, h, prop)
+		// the worker stops by itself when the supervisor's budget is over or when the goroutines and heaps of
+		// finished runs (parked for good, never collected) have grown too large; it says where it stopped and the
+		// supervisor gives the rest of the seeds to a fresh process. Read between runs only: no run sees it.
+		deadline, _ := strconv.ParseInt(env("VERIF_DEADLINE", "0"), 10, 64)
+		maxRSS, _ := strconv.ParseInt(env("VERIF_WORKER_SOFT_RSS_MB", "1800"), 10, 64)
+		stop := func(seed int64) bool {
+			why := ""
+			if deadline > 0 && time.Now().Unix() > deadline {
+				why = "deadline"
+			} else if rssMB() > maxRSS {
+				why = "rss"
+			}
+			if why == "" {
+				return false
+			}
+			fmt.Fprintf(w, "{\"worker_stop\":%q,\"next_seed\":%d}\n", why, seed)
+			w.Flush()
+			return true
+		}
 		for i := 0; i < count; i++ {
 			seed := start + int64(i)
+			if i > 0 && stop(seed) {
+				break
+			}
 			plan := core.GenPlan(h, prop, seed, tier)
 			res := core.Execute(t, h, plan)
 			if res.Sig != "" || res.Anomaly != "" || keepPlan || i < 2 {
@@ -147,6 +169,20 @@ func warmUp(t *testing.T, h core.Harness, prop string) {
 		return
 	}
 	core.Execute(t, h, core.GenPlan(h, prop, 0, "quick"))
+}
+
+// rssMB reads the resident set size of this process.
+func rssMB() int64 {
+	b, err := os.ReadFile("/proc/self/statm")
+	if err != nil {
+		return 0
+	}
+	f := strings.Fields(string(b))
+	if len(f) < 2 {
+		return 0
+	}
+	pages, _ := strconv.ParseInt(f[1], 10, 64)
+	return pages * int64(os.Getpagesize()) >> 20
 }
 
 var _ = rand.Int
